@@ -1,8 +1,243 @@
 import DepsDev.Drive.Loop
-open DepsDev
+import DepsDev.Model.Maven.Pipeline
+import DepsDev.Model.Maven.Clauses
+import DepsDev.Ref.MavenModel
+open DepsDev DepsDev.Model.Maven
 
-/-- Stub: replaced by the property's builder. -/
-def handleC15 : List String → String
+/-! Line-protocol driver for C15. Ops (after the property id):
+
+* `pom <lineage>`      → `ok deps=[…] mgmt=[…]` | `err`      (model of the Go pipeline)
+* `ref <lineage>`      → `ok deps=[…] mgmt=[…]` | `err`      (the reference semantics)
+* `classify <lineage>` → `ok a=0 b=0 c=0 d=0 f=0 g=0`        (1 = hypothesis clause violated)
+* `interp <n> (<k> <v>)* <s>` → `ok <hex result> <0|1>`
+
+`<lineage>` is the token stream `L <n> pom…` documented in harness/cmd/c15/ast.go. -/
+
+namespace C15Driver
+
+abbrev P (α : Type) := List String → Option (α × List String)
+
+def pStr : P Bytes
+  | t :: rest => (Bytes.ofHex t).map (·, rest)
+  | [] => none
+
+/-- canonical decimal, at most 4 digits -/
+def natOfDigits (cs : List Char) : Option Nat :=
+  if cs.isEmpty || cs.length > 4 then none
+  else if cs.length > 1 && cs.head? == some '0' then none
+  else if cs.all Char.isDigit then some (cs.foldl (fun n c => n * 10 + (c.toNat - 48)) 0)
+  else none
+
+def pNat : P Nat
+  | t :: rest => (natOfDigits t.toList).map (·, rest)
+  | [] => none
+
+def pLit (w : String) : P Unit
+  | t :: rest => if t == w then some ((), rest) else none
+  | [] => none
+
+def splitOnChar (c : Char) : List Char → List (List Char)
+  | [] => [[]]
+  | x :: xs =>
+    match splitOnChar c xs with
+    | [] => [[]]
+    | h :: t => if x = c then [] :: h :: t else (x :: h) :: t
+
+/-- 1 to 5 dot separated canonical naturals -/
+def numsOf (cs : List Char) : Option (List Nat) :=
+  let parts := splitOnChar '.' cs
+  if parts.length < 1 || parts.length > 5 then none else parts.mapM natOfDigits
+
+def jdkOf (cs : List Char) : Option Jdk :=
+  match cs with
+  | ['-'] => some .absent
+  | 's' :: rest => (numsOf rest).map (.simple false)
+  | 'n' :: rest => (numsOf rest).map (.simple true)
+  | 'r' :: body =>
+    if body.length < 3 then none else
+    match body.head?, body.getLast? with
+    | some o, some c =>
+      if (o = '[' || o = '(') && (c = ']' || c = ')') then
+        let inner := (body.drop 1).dropLast
+        match splitOnChar ',' inner with
+        | [lo, hi] =>
+          let plo := if lo.isEmpty then some none else (numsOf lo).map some
+          let phi := if hi.isEmpty then some none else (numsOf hi).map some
+          match plo, phi with
+          | some l, some h => some (.range (o = '[') l h (c = ']'))
+          | _, _ => none
+        | _ => none
+      else none
+    | _, _ => none
+  | _ => none
+
+def pJdk : P Jdk
+  | t :: rest => (jdkOf t.toList).map (·, rest)
+  | [] => none
+
+def pRepeat {α} (p : P α) : Nat → P (List α)
+  | 0, ts => some ([], ts)
+  | n + 1, ts => do
+    let (x, ts) ← p ts
+    let (xs, ts) ← pRepeat p n ts
+    pure (x :: xs, ts)
+
+def pCount (limit : Nat) : P Nat := fun ts => do
+  let (n, ts) ← pNat ts
+  if n > limit then none else pure (n, ts)
+
+def pProp : P (Bytes × Bytes) := fun ts => do
+  let (k, ts) ← pStr ts
+  let (v, ts) ← pStr ts
+  pure ((k, v), ts)
+
+def pProps : P (List (Bytes × Bytes)) := fun ts => do
+  let (n, ts) ← pCount 512 ts
+  pRepeat pProp n ts
+
+def pExcl : P Exclusion := fun ts => do
+  let (g, ts) ← pStr ts
+  let (a, ts) ← pStr ts
+  pure (⟨g, a⟩, ts)
+
+def pDep : P Dep := fun ts => do
+  let (_, ts) ← pLit "D" ts
+  let (g, ts) ← pStr ts
+  let (a, ts) ← pStr ts
+  let (v, ts) ← pStr ts
+  let (typ, ts) ← pStr ts
+  let (cls, ts) ← pStr ts
+  let (scope, ts) ← pStr ts
+  let (opt, ts) ← pStr ts
+  let (n, ts) ← pCount 64 ts
+  let (ex, ts) ← pRepeat pExcl n ts
+  pure (⟨g, a, v, typ, cls, scope, opt, ex⟩, ts)
+
+def pDeps : P (List Dep) := fun ts => do
+  let (n, ts) ← pCount 64 ts
+  pRepeat pDep n ts
+
+def pProfile : P Profile := fun ts => do
+  let (_, ts) ← pLit "F" ts
+  let (abd, ts) ← pStr ts
+  let (jdk, ts) ← pJdk ts
+  let (on, ts) ← pStr ts
+  let (ofam, ts) ← pStr ts
+  let (oa, ts) ← pStr ts
+  let (ov, ts) ← pStr ts
+  let (props, ts) ← pProps ts
+  let (deps, ts) ← pDeps ts
+  let (mgmt, ts) ← pDeps ts
+  pure (⟨abd, jdk, ⟨on, ofam, oa, ov⟩, props, deps, mgmt⟩, ts)
+
+def pPom : P Project := fun ts => do
+  let (_, ts) ← pLit "P" ts
+  let (g, ts) ← pStr ts
+  let (a, ts) ← pStr ts
+  let (v, ts) ← pStr ts
+  let (pg, ts) ← pStr ts
+  let (pa, ts) ← pStr ts
+  let (pv, ts) ← pStr ts
+  let (pack, ts) ← pStr ts
+  let (props, ts) ← pProps ts
+  let (deps, ts) ← pDeps ts
+  let (mgmt, ts) ← pDeps ts
+  let (n, ts) ← pCount 64 ts
+  let (profiles, ts) ← pRepeat pProfile n ts
+  pure (⟨g, a, v, ⟨pg, pa, pv⟩, pack, props, deps, mgmt, profiles⟩, ts)
+
+def pLineage (ts : List String) : Option Lineage := do
+  let (_, ts) ← pLit "L" ts
+  let (n, ts) ← pCount 64 ts
+  if n < 1 then none else
+  let (root, ts) ← pPom ts
+  let (repo, ts) ← pRepeat pPom (n - 1) ts
+  if ts.isEmpty then pure ⟨root, repo⟩ else none
+
+/-! ### well-formedness: the strings on which XML decoding is the identity -/
+
+def okText (s : Bytes) : Bool := s.all fun c => c ≥ 0x21 && c ≤ 0x7e && c != 60 && c != 62 && c != 38
+
+def isLetter (c : UInt8) : Bool := (97 ≤ c && c ≤ 122) || (65 ≤ c && c ≤ 90) || c == 95
+
+def okName (s : Bytes) : Bool :=
+  match s with
+  | [] => false
+  | c :: rest => isLetter c && rest.all fun c => isLetter c || (48 ≤ c && c ≤ 57) || c == 46 || c == 45
+
+def okBool (s : Bytes) : Bool :=
+  s.isEmpty || s == bTrue || s == bFalse ||
+    (okText s && Ref.MavenModel.containsSub s [cDollar, cOpen] && Ref.MavenModel.containsSub s [cClose])
+
+def okJdk : Jdk → Bool
+  | .range _ none none _ => false
+  | .range _ (some lo) (some hi) _ => cmpNums lo hi == .lt
+  | _ => true
+
+def okDeps (ds : List Dep) : Bool :=
+  ds.all fun d => okText d.g && okText d.a && okText d.v && okText d.typ && okText d.cls && okText d.scope &&
+    okBool d.opt && d.excl.all fun e => okText e.g && okText e.a
+
+def okProps (ps : List (Bytes × Bytes)) : Bool := ps.all fun kv => okName kv.1 && okText kv.2
+
+def okPom (p : Project) : Bool :=
+  okText p.g && okText p.a && okText p.v && okText p.parent.g && okText p.parent.a && okText p.parent.v &&
+  okText p.packaging && okProps p.props && okDeps p.deps && okDeps p.mgmt &&
+  p.profiles.all fun f => okBool f.abd && okJdk f.jdk && okProps f.props && okDeps f.deps && okDeps f.mgmt &&
+    okText f.os.name && okText f.os.family && okText f.os.arch && okText f.os.version
+
+def wf (L : Lineage) : Bool := okPom L.root && L.repo.all okPom
+
+/-! ### output -/
+
+def fmtDep (d : Dep) : String :=
+  let ex := if d.excl.isEmpty then "-" else
+    "+".intercalate (d.excl.map fun e => Bytes.toHex e.g ++ "/" ++ Bytes.toHex e.a)
+  ":".intercalate [Bytes.toHex d.g, Bytes.toHex d.a, Bytes.toHex d.v, Bytes.toHex d.typ, Bytes.toHex d.cls,
+    Bytes.toHex d.scope, Bytes.toHex d.opt, ex]
+
+def fmtDeps (ds : List Dep) : String := "[" ++ ",".intercalate (ds.map fmtDep) ++ "]"
+
+def fmtResult : Option (List Dep × List Dep) → String
+  | none => "err"
+  | some (deps, mgmt) => "ok deps=" ++ fmtDeps deps ++ " mgmt=" ++ fmtDeps mgmt
+
+def b01 (holds : Bool) : String := if holds then "0" else "1"
+
+def handle : List String → String
+  | "pom" :: ts =>
+    match pLineage ts with
+    | some L => if wf L then fmtResult (goPipeline L) else "bad-op"
+    | none => "bad-op"
+  | "ref" :: ts =>
+    match pLineage ts with
+    | some L => if wf L then fmtResult (Ref.MavenModel.effective L) else "bad-op"
+    | none => "bad-op"
+  | "classify" :: ts =>
+    match pLineage ts with
+    | some L =>
+      if wf L then
+        "ok a=" ++ b01 (Clauses.clauseA L) ++ " b=" ++ b01 (Clauses.clauseB L) ++ " c=" ++ b01 (Clauses.clauseC L) ++
+        " d=" ++ b01 (Clauses.clauseD L) ++ " f=" ++ b01 (Clauses.clauseF L) ++ " g=" ++ b01 (Clauses.clauseG L)
+      else "bad-op"
+    | none => "bad-op"
+  | "interp" :: ts =>
+    match pProps ts with
+    | some (table, [hs]) =>
+      match Bytes.ofHex hs with
+      | some s =>
+        -- the project the harness builds: the string as Packaging and as the version of one dependency
+        let p : Project := { Project.empty with props := table, packaging := s,
+                                                deps := [⟨[103], [97], s, [], [], [], [], []⟩] }
+        let q := p.Interpolate
+        match q.deps with
+        | [d] => if d.v == q.packaging then "ok " ++ Bytes.toHex q.packaging ++ " 1"
+                 else "ok " ++ Bytes.toHex q.packaging ++ " inconsistent"
+        | _ => "ok " ++ Bytes.toHex q.packaging ++ " 0"
+      | none => "bad-op"
+    | _ => "bad-op"
   | _ => "bad-op"
 
-def main : IO Unit := Drive.runDriver "C15" handleC15
+end C15Driver
+
+def main : IO Unit := Drive.runDriver "C15" C15Driver.handle
